@@ -407,6 +407,8 @@ func c07FilterSpec(c *Ctx, fn *ssa.Function, nl int, errTrue bool) DTXSpec {
 					for i := -1; i <= nl+1; i++ {
 						d = append(d, int64(i))
 					}
+					// "effectively unlimited": a limit no list can reach
+					d = append(d, 1<<62)
 					return d
 				}
 				return nil
